@@ -46,6 +46,8 @@ type Profile struct {
 	// RSFaults: probability that a replica-set create/delete issued by the ExtendedDaemonSet controller is
 	// rejected or applied with its answer lost
 	RSFaults float64
+	// Big: a cluster of 25-64 nodes with budgets, ramps and canary sizes that only bite at that scale
+	Big bool
 	// ReadFaults: probability that a list issued by a controller (replica sets, settings, pods, nodes) is
 	// rejected; the reconcile has to give up rather than act on what it could not read
 	ReadFaults float64
@@ -185,10 +187,26 @@ func genStrategy(r *rand.Rand, p Profile) (v1.ExtendedDaemonSetSpecStrategy, str
 	mp := []int32{1, 2, 250}[r.Intn(3)]
 	st.RollingUpdate.MaxParallelPodCreation = &mp
 	st.ReconcileFrequency = &metav1.Duration{Duration: []time.Duration{time.Second, 10 * time.Second}[r.Intn(2)]}
+	if p.Big {
+		mus = []intstr.IntOrString{intstr.FromInt(5), intstr.FromInt(13), intstr.FromString("10%"), intstr.FromString("33%"), intstr.FromString("100%")}
+		mu = mus[r.Intn(len(mus))]
+		st.RollingUpdate.MaxUnavailable = &mu
+		mpsfs = []intstr.IntOrString{intstr.FromInt(0), intstr.FromInt(3), intstr.FromString("10%")}
+		mpsf = mpsfs[r.Intn(len(mpsfs))]
+		st.RollingUpdate.MaxPodSchedulerFailure = &mpsf
+		incs = []intstr.IntOrString{intstr.FromInt(3), intstr.FromInt(7), intstr.FromString("5%"), intstr.FromString("15%")}
+		inc = incs[r.Intn(len(incs))]
+		st.RollingUpdate.SlowStartAdditiveIncrease = &inc
+		mp = []int32{4, 10, 250}[r.Intn(3)]
+		st.RollingUpdate.MaxParallelPodCreation = &mp
+	}
 	kind := "none"
 	if r.Float64() < p.CanaryProb {
 		c := &v1.ExtendedDaemonSetSpecStrategyCanary{}
 		reps := []intstr.IntOrString{intstr.FromInt(1), intstr.FromInt(2), intstr.FromString("50%")}
+		if p.Big {
+			reps = []intstr.IntOrString{intstr.FromInt(7), intstr.FromString("10%"), intstr.FromString("15%"), intstr.FromString("33%")}
+		}
 		rep := reps[r.Intn(len(reps))]
 		c.Replicas = &rep
 		if r.Intn(3) == 0 {
@@ -230,6 +248,9 @@ func (e *Sim) Run(ctx *core.Ctx, idx int) {
 		maxN = 6
 	}
 	nNodes := 2 + r.Intn(maxN-1)
+	if e.P.Big {
+		nNodes = 25 + r.Intn(40)
+	}
 	for i := 0; i < nNodes; i++ {
 		w.AddNode(genNode(r, fmt.Sprintf("n%d", i)))
 	}
